@@ -289,6 +289,7 @@ func sessionC08(r *vk.Run, rng *rand.Rand, bin string, wkr, idx int) {
 	nsteps := 5 + rng.Intn(14)
 	bad := false
 	forceNext := ""
+	var scopeQ []string
 	for k := 0; k < nsteps && !bad; k++ {
 		// a burst of 1..4 batches; either paced (wait for each) or queued behind a busy UI loop
 		burst := 1
@@ -306,6 +307,11 @@ func sessionC08(r *vk.Run, rng *rand.Rand, bin string, wkr, idx int) {
 		// not hide a line of the new one; (b) an nth change while a search is in flight, followed by
 		// queries that narrow and widen again (workers of the cancelled search and the chunk cache)
 		var script []string
+		if len(scopeQ) == 0 && size >= 350 && rng.Intn(25) == 0 {
+			ws := []string{"delta", "gamma", "bca", "x-y", "cab", "beta", "alpha"}
+			w1, w2 := ws[rng.Intn(len(ws))], ws[rng.Intn(len(ws))]
+			scopeQ = []string{w1, w1 + " '" + w2 + "'", w1, w1 + " !" + w2, "'" + w2 + "' " + w1, w1 + " '" + w2, w1}
+		}
 		if !queued && rng.Intn(14) == 0 {
 			if st0, err := s.Get(1); err == nil && st0.Current != nil {
 				n := []int{40, 101, 777}[rng.Intn(3)]
@@ -349,7 +355,13 @@ func sessionC08(r *vk.Run, rng *rand.Rand, bin string, wkr, idx int) {
 		for b := 0; b < burst && !bad; b++ {
 			var post, kind string
 			var ok bool
-			if forceNext != "" && !queued && b == 0 {
+			if len(scopeQ) > 0 && !queued && b == 0 {
+				// scripted cache-scope sequence: plain term, the same term refined by a term of another
+				// kind, plain again, refined otherwise (each searched and compared on its own)
+				wd.query = scopeQ[0]
+				post, kind, ok = "change-query("+scopeQ[0]+")", "cache-scope", true
+				scopeQ = scopeQ[1:]
+			} else if forceNext != "" && !queued && b == 0 {
 				// the scripted burst of the previous step is followed by a widening edit
 				post, kind, ok = forceNext, "delete", true
 				if len(wd.query) > 0 {
